@@ -22,6 +22,7 @@ Oracle (independent of Lean): the Python `ArraySpec` array model + a stand-alone
 import json
 import re
 import struct
+import threading
 
 from framework import Suite
 from corr import logix_common as lc
@@ -211,6 +212,42 @@ def tag_type(case, name):
     return None
 
 
+def plx_op(case, comm, op):
+    k = op["op"]
+    res = []
+    if k == "r":
+        r = comm.Read(plx_tagname(op["tag"], op["elem"]), op["n"])
+        st = status_code(r.Status)
+        ty = tag_type(case, op["tag"])
+        if st == 0 and r.Value is not None:
+            vals = r.Value if isinstance(r.Value, list) else [r.Value]
+            res.append("0:%d:%s" % (lc.TYPES[ty], ",".join(canon_val(ty, v) for v in vals)))
+        else:
+            res.append("%s:-:-" % st)
+    elif k == "w":
+        vals = op["vals"]
+        r = comm.Write(plx_tagname(op["tag"], op["elem"]), vals if len(vals) > 1 else vals[0])
+        res.append("%s:-:-" % status_code(r.Status))
+    elif k == "mr":
+        rs = comm.Read([plx_tagname(t, e) for t, e in op["items"]])
+        for (t, e), r in zip(op["items"], rs):
+            st = status_code(r.Status)
+            ty = tag_type(case, t)
+            if st == 0 and r.Value is not None and ty:
+                res.append("0:%d:%s" % (lc.TYPES[ty], canon_val(ty, r.Value)))
+            else:
+                res.append("%s:-:-" % st)
+        if len(rs) != len(op["items"]):
+            res.append("count=%d" % len(rs))
+    elif k == "mw":
+        rs = comm.Write([(plx_tagname(t, e), v) for t, e, _ty, v in op["items"]])
+        for r in rs:
+            res.append("%s:-:-" % status_code(r.Status))
+        if len(rs) != len(op["items"]):
+            res.append("count=%d" % len(rs))
+    return res
+
+
 def run_plx(case):
     from pylogix import PLC
     sim = ic.Sim(case, "sock")
@@ -220,7 +257,7 @@ def run_plx(case):
         comm = PLC()
         comm.IPAddress = "127.0.0.1"
         comm.Port = relay.port
-        comm.SocketTimeout = 5
+        comm.SocketTimeout = 2
         if case.get("connsize") is not None:
             comm.ConnectionSize = case["connsize"]
         ok = comm.conn.connect()
@@ -228,41 +265,34 @@ def run_plx(case):
             return "connect-failed:%s" % (ok[1],)
         case["eff_connsize"] = comm.ConnectionSize
         sim.peer = relay.upstream_peer
+        case["tagline"] = sim.tag_line()
+        case["addrs"] = {k_: list(v) for k_, v in sim.addrs.items()}
         for op in case["ops"]:
+            if relay.server_closed:          # the simulator hung up in mid-session: nothing more can be observed
+                outs.append("server-closed-the-session")
+                break
             k = op["op"]
             res = []
-            if k == "r":
-                r = comm.Read(plx_tagname(op["tag"], op["elem"]), op["n"])
-                st = status_code(r.Status)
-                ty = tag_type(case, op["tag"])
-                if st == 0 and r.Value is not None:
-                    vals = r.Value if isinstance(r.Value, list) else [r.Value]
-                    res.append("0:%d:%s" % (lc.TYPES[ty], ",".join(canon_val(ty, v) for v in vals)))
-                else:
-                    res.append("%s:-:-" % st)
-            elif k == "w":
-                vals = op["vals"]
-                r = comm.Write(plx_tagname(op["tag"], op["elem"]), vals if len(vals) > 1 else vals[0])
-                res.append("%s:-:-" % status_code(r.Status))
-            elif k == "mr":
-                rs = comm.Read([plx_tagname(t, e) for t, e in op["items"]])
-                for (t, e), r in zip(op["items"], rs):
-                    st = status_code(r.Status)
-                    ty = tag_type(case, t)
-                    if st == 0 and r.Value is not None and ty:
-                        res.append("0:%d:%s" % (lc.TYPES[ty], canon_val(ty, r.Value)))
-                    else:
-                        res.append("%s:-:-" % st)
-                if len(rs) != len(op["items"]):
-                    res.append("count=%d" % len(rs))
-            elif k == "mw":
-                rs = comm.Write([(plx_tagname(t, e), v) for t, e, _ty, v in op["items"]])
-                for r in rs:
-                    res.append("%s:-:-" % status_code(r.Status))
-                if len(rs) != len(op["items"]):
-                    res.append("count=%d" % len(rs))
+            watchdog = threading.Timer(8.0, relay.kill)      # pylogix can loop forever on a short bundle reply
+            watchdog.daemon = True
+            watchdog.start()
+            try:
+                res = plx_op(case, comm, op)
+            except Exception as exc:         # pylogix itself gave up on what it received
+                case["tagline"] = sim.tag_line()
+                case["addrs"] = {k_: list(v) for k_, v in sim.addrs.items()}
+                outs.append("client-exception:%s:%s" % (type(exc).__name__, str(exc)[:80].replace(";", ",").replace(" ", "_")))
+                break
+            finally:
+                watchdog.cancel()
+            if relay.killed:
+                outs.append("client-stalled")
+                break
             outs.append("&".join(res) + "@" + sim.dump())
-        comm.Close()
+        try:
+            comm.Close()
+        except Exception:
+            pass
         sim.wait_idle()
         nf = sim.nfwds()
         case["tagline"] = sim.tag_line()
@@ -372,6 +402,8 @@ def oracle_ref(case, out):
                 cip = ic.cip_of_reply(rep)
                 if cip is None:
                     why = "reply carries no CIP message"
+                elif m == "req" and step["t"][0] == "c" and not connected_echo(rep, resolved_seq(case, k)):
+                    why = "connected reply does not echo the request's sequence count in a connected data item"
                 elif m == "req":
                     bogus = step["t"][0] == "c" and len(step["t"]) > 1 and step["t"][1] is not None
                     if not bogus:
@@ -396,6 +428,21 @@ def oracle_ref(case, out):
     if steps[-1].split("#")[1] != "0" and (not ended or not open_conns):
         return "forwards left behind after the session ended"
     return None
+
+
+def resolved_seq(case, k):
+    """the sequence count the k-th step was sent with (from the resolved script)"""
+    m = re.search(r"req~c:\d+:(\d+)~", case["resolved"][k])
+    return int(m.group(1)) if m else None
+
+
+def connected_echo(rep, seq):
+    f = ic.parse_frame(rep)
+    it = ic.parse_items(f["payload"]) if f else None
+    if not it or len(it[2]) != 2:
+        return False
+    (t0, d0), (t1, d1) = it[2]
+    return t0 == 0xA1 and len(d0) == 4 and t1 == 0xB1 and len(d1) >= 2 and struct.unpack_from("<H", d1, 0)[0] == seq
 
 
 def oracle_cip(spec, r, cip):
@@ -454,6 +501,9 @@ def oracle_fo(step, cip, open_conns):
         return "actual packet intervals differ from the requested ones"
     if oty != 2 and ot != step["otId"]:
         return "O->T connection id not echoed for a non point-to-point connection"
+    _, tty = ncp_fields(step["toNcp"])
+    if tty != 1 and to != step["toId"]:
+        return "T->O connection id chosen by the originator not echoed"
     open_conns[ot] = serial
     step["_ot"] = ot
     return None
@@ -488,6 +538,14 @@ def oracle_plx(case, out):
     if out.startswith("connect-failed"):
         return "pylogix could not register / open a connection: " + out
     recs = out.split(";")
+    for i, r_ in enumerate(recs):
+        if r_.startswith("client-exception"):
+            return "the client could not digest the reply to operation #%d: %s" % (i, r_)
+    if "client-stalled" in recs:
+        return "the client made no progress on operation #%d (an unexpected reply made it loop)" % recs.index("client-stalled")
+    if "server-closed-the-session" in recs:
+        return "the simulator closed the session after operation #%d (%s)" % (
+            recs.index("server-closed-the-session") - 1, case["ops"][max(recs.index("server-closed-the-session") - 1, 0)]["op"])
     if len(recs) != len(case["ops"]) + 2:
         return "%d records for %d operations" % (len(recs), len(case["ops"]))
     spec = lg.ArraySpec(case, case["addrs"])
@@ -662,7 +720,7 @@ def fo_usable(fo, tags):
 
 
 def ref_case(rng, tier, mode):
-    tags = lg.rand_tags(rng, max_tags=4, max_len=rng.choice([13, 40]), big=(tier == "thorough"))
+    tags = lg.rand_tags(rng, max_tags=4, max_len=rng.choice([13, 40, 300]), big=(tier == "thorough"))
     steps = [{"m": "reg", "ctx": rctx(rng)}]
     n = rng.randint(1, 14)
     fo = None
@@ -872,8 +930,11 @@ class C14(Suite):
 
     def model_line(self, c):
         if "tagline" not in c or ("resolved" not in c and c["kind"] == "ref"):
-            out = self.impl(c)
-            if "tagline" not in c:
+            try:
+                out = self.impl(c)
+            except Exception as exc:
+                out = "exception:" + type(exc).__name__
+            if "tagline" not in c or ("resolved" not in c and c["kind"] == "ref"):
                 return "c14-setup-failed " + out[:80].replace(" ", "_")
         if c["kind"] == "ref":
             return "c14.run 1 %d %s %s" % (c["budget"], c["tagline"], ";".join(c["resolved"]) if c["resolved"] else "-")
